@@ -347,7 +347,7 @@ def run_c19(ctx, b):
     if q:
         plan = [('A', 4, True, 0, 30), ('B', 4, False, 0, 30)]
     else:
-        plan = [('A', 4, True, 4, 300), ('B', 4, True, 2, 300), ('C', 4, True, 4, 300)]
+        plan = [('A', 4, True, 2, 200), ('B', 4, True, 2, 200), ('C', 4, True, 2, 200)]
     for ci, (cname, L, export, nrep, nsim) in enumerate(plan):
         c = PCFGS[cname]
         heights = pure_heights(c)
@@ -375,7 +375,7 @@ def run_c19(ctx, b):
             ctx.extra.setdefault('as_found_mechanisms_violate_Pure', {})[cname] = found
             if cname == 'B' and not all(found):
                 raise vlib.Broken('Pure.tla: an as-found mechanism no longer violates Pure under configuration B (model vacuous)')
-        opts = dict(c, cfg=cname, inst=3, reps=5, strict=(6 if q else 12))
+        opts = dict(c, cfg=cname, inst=3, reps=5, strict=(6 if q else 10))
         nhist = 0
         if export:
             # 3. every history of L node steps
